@@ -110,6 +110,12 @@ func prove(argv []string) {
 		for _, c := range cases {
 			ex := symex.NewExec(prog, cs, tb)
 			ex.SetPrefix("")
+			ex.OpaqueStrings = os.Getenv("VERIF_OPAQUE") != ""
+			for r, sp := range prog.ByRel {
+				for k, v := range symex.ExtractFuncTables(sp, r) {
+					ex.FuncTables[k] = v
+				}
+			}
 			if fc.Flags["pure"] {
 				if ng := ex.VerifyLemmas(fn, fc, c); ng != nil {
 					fmt.Printf("NOT GENERATED lemmas %s: %s\n", ng.Func, ng.Why)
